@@ -56,7 +56,8 @@ fn attrs(el: *mut Element, with_locs: bool) -> String {
         let val = take_str(unsafe { lol_html_attribute_value_get(a) });
         // cross-check the by-name accessors: an attribute the iterator lists exists, so get_attribute is non-NULL and has_attribute is 1
         if let Some(nb) = &n {
-            if std::str::from_utf8(nb).is_ok() && !nb.is_empty() {
+            // names the validator refuses by contract (whitespace, '/', '>', '=') cannot be looked up through either API
+            if std::str::from_utf8(nb).is_ok() && !nb.is_empty() && !nb.iter().any(|b| matches!(*b, b' ' | b'\t' | b'\n' | b'\r' | 0x0c | b'/' | b'>' | b'=')) {
                 let (d, l) = p(nb);
                 let got = take_str(unsafe { lol_html_element_get_attribute(el, d, l) });
                 let has = unsafe { lol_html_element_has_attribute(el, d, l) };
